@@ -15,6 +15,7 @@ Definition std_fint (f : nat) (l : list Z) : Z :=
   | 2%nat => (arg 0 l) mod 3                        (* mod3 *)
   | 3%nat => Z.max (arg 0 l - 1) 0                  (* decs *)
   | 4%nat => Z.max (arg 0 l) (arg 1 l)              (* max2 *)
+  | 5%nat => arg 0 l                                (* asi32: `c as i32` on an aggregate result *)
   | _ => 0
   end.
 
